@@ -239,7 +239,7 @@ def c_pow_int(rng, fn):
     if rng.random() < 0.15 and s[1] and s[3] > 1:
         n = 1000 // s[3] + rng.randint(-1, 1)
     exact = None
-    if fin(s) and (s[1] or n > 0) and s[3] * abs(n) < 40000 and abs(s[2] * n) < 10**5:
+    if fv(s) and (s[1] or n > 0) and s[3] * abs(n) < 40000 and abs(s[2] * n) < 10**5:
         exact = ("pow", V(s) ** n, n, s[3]) if (V(s) != 0 or n > 0) else None
     elif fin(s) and s[1] and abs(n) >= 2:
         # huge powers: only magnitude bracketing by integer log2 bounds (direction clause)
